@@ -1,9 +1,461 @@
-"""C14 — probabilistic modules with a recording stub distribution (filled in below)."""
+"""C14 — probabilistic modules, driven with recording stub distributions.
+
+(A) `_dist_sample` over the whole finite grid InteractionType x what the distribution object can answer: the code's
+    decision is compared with the documented contract (spec oracle, written here independently) and with the extracted
+    model (coq/Model/C14_Interact.v).
+(B) key / parameter plumbing of ProbabilisticTensorDictModule.forward, ProbabilisticTensorDictSequential
+    (forward, get_dist, log_prob) and CompositeDistribution for every InteractionType (module default and
+    set_interaction_type context), return_log_prob, num_samples, log_prob_key, dict in_keys, tensordict_out:
+    which method was consulted, with which parameter objects and which sample shape; where the sample and the
+    log-probability are written; everything else untouched.
+Real distributions' numerics are out of scope: every value here is a small integer chosen by the stub.
+"""
+import itertools
+import json
+import warnings
+
+import torch
+
+from .core import Sym, sx
+
+ITYPES = ["mode", "median", "mean", "random", "deterministic"]
+CAPS = ["value", "raise-attr", "raise-notimpl"]
+N_EMP = 7     # n_empirical_estimate used by the stubs' modules
+
+
+def _imports():
+    import torch.distributions as D
+    from tensordict import TensorDict
+    from tensordict.nn import (ProbabilisticTensorDictModule, ProbabilisticTensorDictSequential, TensorDictModule,
+                               TensorDictSequential, InteractionType, set_interaction_type, CompositeDistribution)
+    import tensordict.nn.probabilistic as PR
+    from tensordict.nn import set_composite_lp_aggregate
+    return D, TensorDict, ProbabilisticTensorDictModule, ProbabilisticTensorDictSequential, TensorDictModule, \
+        TensorDictSequential, InteractionType, set_interaction_type, CompositeDistribution, PR, set_composite_lp_aggregate
+
+
+# ------------------------------------------------------------------ (A) the decision table
+def stub_class(lkj, has_det, support, mode, median, mean, has_rsample):
+    D = _imports()[0]
+    base = D.LKJCholesky if lkj else D.Distribution
+
+    def attr(name, cap):
+        def get(self):
+            self.calls.append(name)
+            if cap == "raise-attr":
+                raise AttributeError(name)
+            if cap == "raise-notimpl":
+                raise NotImplementedError(name)
+            return torch.zeros(())
+        return property(get)
+
+    ns = {"arg_constraints": {}, "has_rsample": has_rsample}
+
+    def __init__(self):
+        self.calls = []
+    ns["__init__"] = __init__
+    ns["mode"] = attr("mode", mode)
+    ns["median"] = attr("median", median)
+    ns["mean"] = attr("mean", mean)
+    if has_det:
+        ns["deterministic_sample"] = attr("deterministic_sample", "value")
+
+    def support_get(self):
+        if support is None:
+            raise NotImplementedError
+        return D.constraints.real if support else D.constraints.positive
+    ns["support"] = property(support_get)
+
+    def sample(self, shape=torch.Size()):
+        self.calls.append(("sample", tuple(shape)))
+        return torch.zeros(tuple(shape) + (1,))
+
+    def rsample(self, shape=torch.Size()):
+        self.calls.append(("rsample", tuple(shape)))
+        return torch.zeros(tuple(shape) + (1,))
+    ns["sample"] = sample
+    ns["rsample"] = rsample
+    return type("Stub", (base,), ns)
+
+
+def observed_action(calls, exc):
+    if exc is not None:
+        return {"NotImplementedError": "raise-notimpl", "RuntimeError": "raise-runtime"}.get(exc, "raise-other:" + exc)
+    last = calls[-1] if calls else None
+    if isinstance(last, tuple):
+        kind, shape = last
+        if shape == (N_EMP,):
+            return kind + "-n-mean"
+        if shape == ():
+            return kind
+        return kind + str(shape)
+    return last
+
+
+def spec_action(it, lkj, has_det, reg, support, mode, median, mean, has_rsample):
+    """the documented contract of InteractionType (probabilistic.py:55-73), written independently of the code"""
+    if lkj and it in ("deterministic", "mean", "mode"):
+        return "raise-runtime"
+    if it == "deterministic":
+        if has_det:
+            return "deterministic_sample"
+        it = reg if reg is not None else ("mode" if support is False else "mean")
+        if it == "deterministic":
+            return "raise-notimpl"
+    if it == "mode":
+        return "mode" if mode == "value" else "raise-notimpl"
+    if it == "median":
+        return "median" if median == "value" else "raise-notimpl"
+    if it == "mean":
+        if mean == "value":
+            return "mean"
+        return ("rsample" if has_rsample else "sample") + "-n-mean"      # no analytic mean: estimate it
+    if it == "random":
+        return "rsample" if has_rsample else "sample"
+    return "raise-notimpl"
+
+
+def check_table(R, ok):
+    D, TensorDict, PTM, PTS, TDM, TDS, IT, set_it, Comp, PR, set_agg = _imports()
+    grid = list(itertools.product([False, True], [False, True], [None, True, False], CAPS, CAPS, CAPS, [False, True]))
+    regs = [None] + ITYPES
+    lines, rows = [], []
+    for (lkj, has_det, support, mode, median, mean, has_rsample) in grid:
+        cls = stub_class(lkj, has_det, support, mode, median, mean, has_rsample)
+        mod = PTM(in_keys=["p"], out_keys=["s"], distribution_class=cls, n_empirical_estimate=N_EMP)
+        for reg in regs:
+            if reg is None:
+                PR.DETERMINISTIC_REGISTER.pop(cls, None)
+            else:
+                PR.DETERMINISTIC_REGISTER[cls] = IT(reg)
+            for it in ITYPES:
+                dist = cls()
+                try:
+                    with warnings.catch_warnings():
+                        warnings.simplefilter("ignore")
+                        mod._dist_sample(dist, interaction_type=IT(it))
+                    exc = None
+                except Exception as e:  # noqa: BLE001
+                    exc = type(e).__name__
+                act = observed_action(dist.calls, exc)
+                case = {"kind": "prob", "sub": "table", "it": it, "lkj": lkj, "has_det": has_det, "reg": reg, "support_real": support,
+                        "mode": mode, "median": median, "mean": mean, "has_rsample": has_rsample}
+                rows.append((case, act))
+                lines.append(sx([Sym("interact"), Sym(it), lkj, has_det, Sym("none") if reg is None else [Sym("some"), Sym(reg)],
+                                 Sym("none") if support is None else [Sym("some"), support], Sym(mode), Sym(median), Sym(mean), has_rsample]))
+        PR.DETERMINISTIC_REGISTER.pop(cls, None)
+    res = R.model(lines) if ok else [None] * len(lines)
+    for (case, act), m in zip(rows, res):
+        R.case("table:" + json.dumps(case, sort_keys=True), nontrivial=True, sample=case if len(R.samples) < 6 and case["mean"] == "raise-notimpl" and case["it"] == "mean" else None)
+        R.count("table:" + case["it"])
+        want = spec_action(case["it"], case["lkj"], case["has_det"], case["reg"], case["support_real"], case["mode"], case["median"],
+                           case["mean"], case["has_rsample"])
+        if act != want:
+            pattern = "none"
+            if case["mean"] == "raise-notimpl" and want.endswith("-n-mean") and act == "raise-notimpl":
+                pattern = "mean-fallback-unreachable"
+            R.oracle_fail("interact:mean-fallback" if pattern != "none" else "interact:table", case, {"code": act, "contract": want},
+                          {"check": "interact-table", "pattern": pattern})
+        if m is not None and m != act:
+            R.mismatch("model-vs-code:_dist_sample", case, act, m)
+        R.traces += 1
+    R.extra["interact_grid_points"] = len(rows)
+
+
+# ------------------------------------------------------------------ (B) plumbing with a recording distribution
+CODE = {"mode": 1, "median": 2, "mean": 3, "deterministic_sample": 4, "rsample": 5, "sample": 6}
+LOG = []     # global call log of the recording distributions: (tag, method, payload)
+
+
+def rec_class(tag, has_rsample=True, has_det=True, param_names=("loc", "scale")):
+    D = _imports()[0]
+
+    class Rec(D.Distribution):
+        arg_constraints = {}
+
+        def __init__(self, **params):
+            self.params = params
+            LOG.append((tag, "init", dict(params)))
+            self.base = sum(v for v in params.values())
+            super().__init__(batch_shape=self.base.shape, validate_args=False)
+
+        def _v(self, name, shape=()):
+            LOG.append((tag, name, tuple(shape)))
+            return (self.base * 10 + CODE[name]).expand(tuple(shape) + tuple(self.base.shape)).clone()
+
+        mode = property(lambda self: self._v("mode"))
+        median = property(lambda self: self._v("median"))
+        mean = property(lambda self: self._v("mean"))
+
+        def rsample(self, shape=torch.Size()):
+            return self._v("rsample", shape)
+
+        def sample(self, shape=torch.Size()):
+            return self._v("sample", shape)
+
+        def log_prob(self, value):
+            LOG.append((tag, "log_prob", value))
+            return value * 2 + 1
+    Rec.has_rsample = has_rsample
+    if has_det:
+        Rec.deterministic_sample = property(lambda self: self._v("deterministic_sample"))
+    return Rec
+
+
+def expected_method(it, has_rsample, has_det):
+    if it == "deterministic":
+        return "deterministic_sample" if has_det else "mean"      # unregistered class, no support -> mean
+    if it == "random":
+        return "rsample" if has_rsample else "sample"
+    return it
+
+
+def check_plumbing(R):
+    D, TensorDict, PTM, PTS, TDM, TDS, IT, set_it, Comp, PR, set_agg = _imports()
+    rng = R.rng
+    combos = list(itertools.product(ITYPES, [None] + ITYPES, [False, True], [None, 3], [False, True], [False, True]))
+    if R.quick:
+        rng.shuffle(combos)
+        combos = combos[:220]
+    for (default, ctx, rlp, nsamp, dict_keys, use_out) in combos:
+        has_rsample, has_det = rng.random() < 0.6, rng.random() < 0.6
+        custom_lp = rng.random() < 0.4
+        nested_out = rng.random() < 0.3
+        out_key = ("s", "v") if nested_out else "act"
+        case = {"kind": "prob", "sub": "module", "default": default, "ctx": ctx, "return_log_prob": rlp, "num_samples": nsamp,
+                "dict_in_keys": dict_keys, "tensordict_out": use_out, "has_rsample": has_rsample, "has_det": has_det,
+                "custom_log_prob_key": custom_lp, "nested_out": nested_out}
+        R.case("module:" + json.dumps(case, sort_keys=True), nontrivial=True, sample=case if rng.random() < 0.01 else None)
+        R.count("prob-module:" + (ctx or default))
+        fails = run_module_case(case)
+        for (label, detail, sig) in fails:
+            R.oracle_fail(label, case, detail, sig)
+        R.traces += 1
+    check_sequential(R)
+    check_composite(R)
+
+
+def run_module_case(case):
+    D, TensorDict, PTM, PTS, TDM, TDS, IT, set_it, Comp, PR, set_agg = _imports()
+    fails = []
+    sig = {"check": "prob-module", "pattern": "none"}
+    cls = rec_class("d", case["has_rsample"], case["has_det"])
+    out_key = ("s", "v") if case["nested_out"] else "act"
+    lpk = "my_lp" if case["custom_log_prob_key"] else None
+    in_keys = {"loc": "p_loc", "scale": ("par", "scale")} if case["dict_in_keys"] else ["loc", "scale"]
+    kw = {}
+    if lpk is not None:
+        kw["log_prob_key"] = lpk
+    try:
+        with set_agg(False):
+            mod = PTM(in_keys=in_keys, out_keys=[out_key], distribution_class=cls, default_interaction_type=case["default"],
+                      return_log_prob=case["return_log_prob"], num_samples=case["num_samples"], n_empirical_estimate=N_EMP, **kw)
+    except Exception as e:  # noqa: BLE001
+        return [("prob:constructor-raises", {"exception": type(e).__name__}, sig)]
+    loc = torch.tensor([1, 2], dtype=torch.int64)
+    scale = torch.tensor([100, 200], dtype=torch.int64)
+    other = torch.tensor([7, 7], dtype=torch.int64)
+    if case["dict_in_keys"]:
+        td = TensorDict({"p_loc": loc, "par": {"scale": scale}, "other": other}, [2])
+    else:
+        td = TensorDict({"loc": loc, "scale": scale, "other": other}, [2])
+    tout = TensorDict({"keep": other.clone()}, [2]) if case["tensordict_out"] else None
+    keep_obj = tout.get("keep") if tout is not None else None
+    before = {k: v for k, v in td.items(True, True)}
+    del LOG[:]
+    eff = case["ctx"] or case["default"]
+    method = expected_method(eff, case["has_rsample"], case["has_det"])
+    try:
+        with set_agg(False), warnings.catch_warnings():
+            warnings.simplefilter("ignore")
+            if case["ctx"] is not None:
+                with set_it(IT(case["ctx"])):
+                    res = mod(td, tensordict_out=tout) if tout is not None else mod(td)
+            else:
+                res = mod(td, tensordict_out=tout) if tout is not None else mod(td)
+    except Exception as e:  # noqa: BLE001
+        if case["num_samples"] is not None and eff != "random":
+            return []       # a sample count with a non-random interaction type: no demand (the deterministic value has no sample dim)
+        return [("prob:forward-raises", {"exception": type(e).__name__, "effective": eff}, sig)]
+    # parameters: the distribution was built once from the entries named by in_keys, mapped to the right keywords
+    inits = [x for x in LOG if x[1] == "init"]
+    if len(inits) != 1 or set(inits[0][2]) != {"loc", "scale"} or inits[0][2]["loc"] is not loc or inits[0][2]["scale"] is not scale:
+        fails.append(("prob:parameter-plumbing", {"inits": len(inits), "kwargs": sorted(inits[0][2]) if inits else None}, sig))
+    # which method, which sample shape
+    calls = [x for x in LOG if x[1] in CODE]
+    want_shape = (case["num_samples"],) if (method in ("rsample", "sample") and case["num_samples"] is not None) else ()
+    if [(c[1], c[2]) for c in calls] != [(method, want_shape)]:
+        fails.append(("prob:method-consulted", {"calls": [(c[1], list(c[2])) for c in calls], "want": [method, list(want_shape)],
+                                                "effective": eff}, sig))
+        return fails
+    if case["num_samples"] is not None and eff != "random":
+        return fails
+    dest = res
+    want = (loc + scale) * 10 + CODE[method]
+    got = dest.get(out_key, None)
+    if got is None or got.shape[-1:] != (2,) or not bool((got == want).all()):
+        fails.append(("prob:sample-value", {"have": None if got is None else got.reshape(-1).tolist(), "want": want.tolist()}, sig))
+        return fails
+    lp_key = lpk if lpk is not None else (("s", "v_log_prob") if case["nested_out"] else "act_log_prob")
+    if case["return_log_prob"]:
+        lps = [x for x in LOG if x[1] == "log_prob"]
+        lp = dest.get(lp_key, None)
+        if len(lps) != 1 or lp is None or not bool((lp == got * 2 + 1).all()) or not bool((lps[0][2] == got).all()):
+            fails.append(("prob:log-prob", {"log_prob_calls": len(lps), "key": str(lp_key), "present": lp is not None}, sig))
+        if lp_key not in [tuple(k) if isinstance(k, tuple) else k for k in mod.out_keys]:
+            fails.append(("prob:log-prob-key-not-advertised", {"out_keys": [str(k) for k in mod.out_keys]}, sig))
+    elif dest.get(lp_key, None) is not None:
+        fails.append(("prob:log-prob-written-unasked", {"key": str(lp_key)}, sig))
+    # result object and footprint
+    if case["num_samples"] is None:
+        if tout is not None and res is not tout or tout is None and res is not td:
+            fails.append(("prob:result-object", {"tensordict_out": tout is not None}, sig))
+        adv = set(str(k) for k in mod.out_keys)
+        for k, v in before.items():
+            if str(k) not in adv and td.get(k, None) is not v:
+                fails.append(("prob:footprint", {"key": str(k)}, sig))
+        allowed = adv | {str(k) for k in before} | {"keep"}
+        for t in ([td] if tout is None else [td, tout]):
+            for k in t.keys(True, True):
+                if str(k) not in allowed:
+                    fails.append(("prob:wrote-non-out-key", {"key": str(k)}, sig))
+        if tout is not None and tout.get("keep") is not keep_obj:
+            fails.append(("prob:footprint", {"key": "keep", "where": "tensordict_out"}, sig))
+        if tout is not None and set(map(str, td.keys(True, True))) != set(map(str, before)):
+            fails.append(("prob:input-written-with-tensordict_out", {"keys": sorted(map(str, td.keys(True, True)))}, sig))
+    return fails
+
+
+def check_sequential(R):
+    """ProbabilisticTensorDictSequential: deterministic part feeds the parameters; forward / get_dist / log_prob"""
+    D, TensorDict, PTM, PTS, TDM, TDS, IT, set_it, Comp, PR, set_agg = _imports()
+    for (it, rlp, via_ctx, has_rsample) in itertools.product(ITYPES, [False, True], [False, True], [False, True]):
+        case = {"kind": "prob", "sub": "sequential", "it": it, "return_log_prob": rlp, "via_ctx": via_ctx, "has_rsample": has_rsample}
+        R.case("pseq:" + json.dumps(case, sort_keys=True), nontrivial=True)
+        R.count("prob-sequential:" + it)
+        sig = {"check": "prob-sequential", "pattern": "none"}
+        cls = rec_class("d", has_rsample, True)
+        with set_agg(False):
+            net = TDM(lambda x: (x + 1, x * 100), in_keys=["obs"], out_keys=["loc", "scale"])
+            pm = PTM(in_keys=["loc", "scale"], out_keys=["act"], distribution_class=cls, return_log_prob=rlp,
+                     default_interaction_type="mode" if via_ctx else it)
+            seq = PTS(net, pm)
+        obs = torch.tensor([1, 2], dtype=torch.int64)
+        td = TensorDict({"obs": obs, "other": obs + 5}, [2])
+        other = td.get("other")
+        del LOG[:]
+        method = expected_method(it, has_rsample, True)
+        try:
+            with set_agg(False), warnings.catch_warnings():
+                warnings.simplefilter("ignore")
+                if via_ctx:
+                    with set_it(IT(it)):
+                        res = seq(td)
+                else:
+                    res = seq(td)
+        except Exception as e:  # noqa: BLE001
+            R.oracle_fail("prob-seq:forward-raises", case, {"exception": type(e).__name__}, sig)
+            continue
+        want = ((obs + 1) + obs * 100) * 10 + CODE[method]
+        calls = [(x[1], x[2]) for x in LOG if x[1] in CODE]
+        ok = calls == [(method, ())] and res is td and bool((td.get("act") == want).all()) and td.get("other") is other \
+            and list(seq.in_keys) == ["obs"] and bool((td.get("loc") == obs + 1).all())
+        if rlp:
+            ok = ok and td.get("act_log_prob", None) is not None and bool((td.get("act_log_prob") == want * 2 + 1).all()) \
+                and "act_log_prob" in seq.out_keys
+        if not ok:
+            R.oracle_fail("prob-seq:forward", case, {"calls": [(c[0], list(c[1])) for c in calls], "keys": sorted(map(str, td.keys())),
+                                                     "out_keys": [str(k) for k in seq.out_keys]}, sig)
+        # get_dist: built from the parameters the deterministic part computes; log_prob of the stored sample
+        try:
+            del LOG[:]
+            td2 = TensorDict({"obs": obs}, [2])
+            with set_agg(False):
+                dist = seq.get_dist(td2)
+            good = isinstance(dist, cls) and bool((dist.params["loc"] == obs + 1).all()) and bool((dist.params["scale"] == obs * 100).all())
+            td3 = TensorDict({"obs": obs, "act": obs * 3}, [2])
+            with set_agg(False):
+                lp = seq.log_prob(td3)
+            good = good and bool((lp == obs * 3 * 2 + 1).all())
+            if not good:
+                R.oracle_fail("prob-seq:get_dist/log_prob", case, {"dist": type(dist).__name__}, sig)
+        except Exception as e:  # noqa: BLE001
+            R.oracle_fail("prob-seq:get_dist/log_prob", case, {"exception": type(e).__name__}, sig)
+        R.traces += 1
+
+
+def check_composite(R):
+    """CompositeDistribution: one recording distribution per sample key"""
+    D, TensorDict, PTM, PTS, TDM, TDS, IT, set_it, Comp, PR, set_agg = _imports()
+    for (it, rlp, agg) in itertools.product(ITYPES, [False, True], [False, True]):
+        case = {"kind": "prob", "sub": "composite", "it": it, "return_log_prob": rlp, "aggregate": agg}
+        R.case("composite:" + json.dumps(case, sort_keys=True), nontrivial=True)
+        R.count("prob-composite:" + it)
+        sig = {"check": "prob-composite", "pattern": "none", "aggregate": agg, "return_log_prob": rlp}
+        ca, cb = rec_class("x", True, True), rec_class("y", False, True)
+        one = torch.tensor([1, 2], dtype=torch.int64)
+        params = TensorDict({"params": {"x": {"loc": one, "scale": one * 100}, "y": {"loc": one * 3, "scale": one * 1000}}, "other": one + 9}, [2])
+        other = params.get("other")
+        del LOG[:]
+        try:
+            with set_agg(agg), warnings.catch_warnings():
+                warnings.simplefilter("ignore")
+                mod = PTM(in_keys=["params"], distribution_class=Comp, distribution_kwargs={"distribution_map": {"x": ca, "y": cb}},
+                          default_interaction_type=it, return_log_prob=rlp)
+                res = mod(params)
+                adv = [str(k) for k in mod.out_keys]
+        except Exception as e:  # noqa: BLE001
+            if it == "median":
+                continue      # CompositeDistribution has no median: NotImplementedError is the table's answer
+            R.oracle_fail("prob-composite:raises", case, {"exception": type(e).__name__}, sig)
+            continue
+        mx = expected_method(it, True, True)
+        my = expected_method(it, False, True)
+        wx = (one + one * 100) * 10 + CODE[mx]
+        wy = (one * 3 + one * 1000) * 10 + CODE[my]
+        calls = sorted((x[0], x[1]) for x in LOG if x[1] in CODE)
+        ok = calls == sorted([("x", mx), ("y", my)]) and bool((res.get("x") == wx).all()) and bool((res.get("y") == wy).all()) \
+            and res.get("other") is other
+        if rlp:
+            ok = ok and bool((res.get("x_log_prob") == wx * 2 + 1).all()) and bool((res.get("y_log_prob") == wy * 2 + 1).all())
+            if agg:
+                ok = ok and bool((res.get("sample_log_prob") == wx * 2 + 1 + wy * 2 + 1).all())
+        if not ok:
+            R.oracle_fail("prob-composite:values", case, {"calls": calls, "keys": sorted(map(str, res.keys(True, True)))}, sig)
+        extra = [str(k) for k in res.keys(True, True) if str(k) not in adv and not str(k).startswith("('params'") and str(k) != "other"]
+        if extra:
+            R.oracle_fail("prob-composite:wrote-non-out-key", case, {"keys": extra, "out_keys": adv},
+                          dict(sig, pattern="composite-aggregate-writes-per-leaf-log-probs" if (agg and rlp) else "none"))
+        R.traces += 1
 
 
 def check(R, ok):
-    return
+    check_table(R, ok)
+    check_plumbing(R)
 
 
 def replay(case):
+    class FakeR:
+        quick = True
+        samples = []
+    print("probabilistic case:", json.dumps(case))
+    if case.get("sub") == "module":
+        print("oracle on the implementation:", run_module_case(case) or "(no failure)")
+    elif case.get("sub") == "table":
+        D, TensorDict, PTM, PTS, TDM, TDS, IT, set_it, Comp, PR, set_agg = _imports()
+        cls = stub_class(case["lkj"], case["has_det"], case["support_real"], case["mode"], case["median"], case["mean"], case["has_rsample"])
+        if case["reg"] is not None:
+            PR.DETERMINISTIC_REGISTER[cls] = IT(case["reg"])
+        mod = PTM(in_keys=["p"], out_keys=["s"], distribution_class=cls, n_empirical_estimate=N_EMP)
+        dist = cls()
+        try:
+            mod._dist_sample(dist, interaction_type=IT(case["it"]))
+            exc = None
+        except Exception as e:  # noqa: BLE001
+            exc = type(e).__name__
+        print("implementation:", observed_action(dist.calls, exc))
+        print("contract:", spec_action(case["it"], case["lkj"], case["has_det"], case["reg"], case["support_real"], case["mode"],
+                                        case["median"], case["mean"], case["has_rsample"]))
+    else:
+        print("(re-run ./check C14: sequential / composite cases are a fixed grid)")
     return 0
